@@ -39,7 +39,9 @@ EXPLANATION = (
     ' '
     'R-C01.16 every model-level mutate() queues an operation on every normal path (otherwise the mutation is not replayed when SQL is generated); ChangeField is a reasoned exemption.'
     ' '
-    'R-C01.17 (= R-C11.2) references are rewritten in the signature object that is stored; R-C01.18 (= R-C03.17) create_index_name hands the schema editor the column names, field names only as a fallback.')
+    'R-C01.17 (= R-C11.2) references are rewritten in the signature object that is stored; R-C01.18 (= R-C03.17) create_index_name hands the schema editor the column names, field names only as a fallback.'
+    ' '
+    'R-C01.19 = R-C06.13.')
 NOT_DECIDED = (
     'That the generated SQL executes and yields the same schema as creating '
     'the models from scratch, for any schema/sequence (needs SQLite and '
@@ -1242,7 +1244,13 @@ def r18_index_names_from_columns(ctx, rule_id='R-C01.18'):
     ctx.floor('_create_index_name calls in create_index_name', n, 1)
 
 
+def r19_q_state_stored_independently(ctx):
+    from .c06 import r13_q_state_stored_independently
+    r13_q_state_stored_independently(ctx, rule_id='R-C01.19')
+
+
 def run(ctx):
+    r19_q_state_stored_independently(ctx)
     r18_index_names_from_columns(ctx)
     r17_rename_rewrites_the_stored_signature(ctx)
     r16_every_model_mutation_queues_an_op(ctx)
